@@ -187,6 +187,29 @@ def check(chk):
         st = [x.id for x, cc in cfg.calls_named("_set_ball_count") if cc.args and src(cc.args[0]) == "new_balls"]
         chk.ob("DELTA-1", "the device's own count is set to the recount before the losses are reported", bool(st) and any(cfg.dominates(s_, n.id) for s_ in st),
                f.where(c), construct=f.ident, text="recount stored before loss report")
+    # the other reporter of vanished balls: the check after an eject (the kick threw out more than one ball).  What it reports it also books:
+    # every path from the loss report to the end of the eject stores the recount; otherwise the idle recount sees the same ball missing and
+    # reports it a second time (the playfield gains two balls for one)
+    ej = repo.func(OB, "OutgoingBallsHandler._eject_ball")
+    chk.analysed(ej)
+    ecfg = ej.cfg()
+    rep = [(n, c) for n, c in ecfg.calls_named("lost_idle_ball")]
+    chk.need(rep, "DELTA-1", "the eject checks for balls that left with the ejected one (lost_idle_ball after the recount)", ej)
+    stores = [n.id for n, c in ecfg.calls_named("_set_ball_count") if c.args and src(c.args[0]) == "new_balls"]
+    for n, c in rep:
+        w = ecfg.path_avoiding(n.id, [ecfg.exit.id], stores, ignore_exc=True) if stores else [n.id]
+        chk.ob("DELTA-1", "a ball reported lost after an eject is also taken off the device's count on every path (stored recount)", w is None, ej.where(c),
+               detail="without the stored recount the counting loop finds the same ball missing once the device is idle and reports it again",
+               construct=ej.ident, text="double-eject loss booked", path=ecfg.fmt_path(w, ej) if w and len(w) > 1 else None, nontrivial=True)
+        from sa.helpers import inloop_guards as _ilg
+        loops_ = [h for h in ecfg.nodes if h.kind == "loop" and any(x is c for st in h.ast.body for x in ast.walk(st))]
+        ok = (not per_ball) or (bool(loops_) and src(loops_[-1].ast.iter).replace(" ", "") in ("range(0,old_balls-new_balls)", "range(old_balls-new_balls)") and
+                                not _ilg(ecfg, n.id, loops_[-1].id))
+        chk.ob("DELTA-1", "each of the (expected - recounted) balls that left with the ejected one is reported (lost_idle_ball accounts for exactly one)", ok, ej.where(c),
+               detail="one report for N extra balls: N-1 balls are loose that no count knows about", construct=ej.ident, text="double-eject loss per ball")
+        g = ecfg.guards_at(n.id)
+        chk.ob("DELTA-1", "the loss after an eject is reported only when the recount is below the expected count", g.get("new_balls < old_balls") is True or g.get("old_balls > new_balls") is True,
+               ej.where(c), detail=str(sorted(g.items())), construct=ej.ident, text="double-eject loss condition")
     # available_balls transfer in setup_eject_chain
     f = repo.func(BD, "BallDevice.setup_eject_chain")
     chk.analysed(f)
@@ -596,6 +619,10 @@ def _entrance_windows_per_switch(chk, repo):
 def battery():
     from sa.battery import M
     return [
+        M("one loss report for any number of extra balls", OB, "                    for _ in range(0, old_balls - new_balls):\n                        # Post that the ball is lost\n                        await self.ball_device.lost_idle_ball()\n                        # Cancel the eject queue for the lost ball\n", "                    await self.ball_device.lost_idle_ball()\n                    for _ in range(0, old_balls - new_balls):\n", "DELTA-1"),
+        M("double-eject recount stored only when a queued request was cancelled", OB, "                    self.info_log(\"Necessary queue requests are cancelled. Updating ball count to %s.\" % new_balls)\n                    self.ball_device.ball_count_handler._set_ball_count(new_balls)  # pylint: disable=protected-access", "                            self.ball_device.ball_count_handler._set_ball_count(new_balls)  # pylint: disable=protected-access", "DELTA-1"),
+        M("switch counter edits the configured ball switches", "mpf/devices/ball_device/switch_counter.py", "        self._switches = set(self.config['ball_switches'])\n        if self.config['jam_switch']:\n            self._switches.add(self.config['jam_switch'])", "        self._switches = self.config['ball_switches']\n        if self.config['jam_switch'] and self.config['jam_switch'] not in self._switches:\n            self._switches.append(self.config['jam_switch'])", "CONFIG-0"),
+        M("twin: switch counter copies the configured ball switches into a list", "mpf/devices/ball_device/switch_counter.py", "        self._switches = set(self.config['ball_switches'])\n        if self.config['jam_switch']:\n            self._switches.add(self.config['jam_switch'])", "        self._switches = list(self.config['ball_switches'])\n        if self.config['jam_switch'] and self.config['jam_switch'] not in self._switches:\n            self._switches.append(self.config['jam_switch'])", None),
         M("eject without asking the target", OB, "            await eject_request.target.wait_for_ready_to_receive(self.ball_device)\n", "", "DOM-10"),
         M("gate asks the source", OB, "await eject_request.target.wait_for_ready_to_receive(self.ball_device)", "await self.ball_device.wait_for_ready_to_receive(self.ball_device)", "DOM-10"),
         M("gate only on first try", OB, "            await eject_request.target.wait_for_ready_to_receive(self.ball_device)\n", "            if not eject_try:\n                await eject_request.target.wait_for_ready_to_receive(self.ball_device)\n", "DOM-10"),
